@@ -56,6 +56,7 @@ type hist struct {
 	tag      string
 	nid      int
 	stopped  bool
+	faulted  bool // a request ran under a storage read fault and the history went on
 	nontriv  bool
 	sigs     map[string]bool
 }
@@ -234,6 +235,9 @@ func bucket(now, dl time.Time) string {
 // do executes one request, judges it and updates the client. Returns false when the history
 // must stop (a violation that leaves the specification out of sync).
 func (h *hist) do(rq *request) bool {
+	if rq.Fault != "" && h.vs != nil && h.parent == nil {
+		return h.doFaulted(rq)
+	}
 	e, w := h.e, h.w
 	cl := h.clients[rq.Client]
 	w.now = time.Now()
@@ -787,7 +791,13 @@ func runGenerated(e *ev.Env, c *ev.Case) {
 		h.advance(r, id)
 		mw := apiBias == 0 || (apiBias == 2 && r.Bool())
 		rq := &request{Client: ci, MW: mw, Presented: id, Class: class}
-		rq.Ops = h.genOps(r, ci, mw, id, r.Range(0, 5))
+		if h.vs != nil && id != "" && xr.Chance(1, 8) {
+			// the storage cannot be read while this request presents its id
+			rq.Fault = []string{"get-first", "get-outage"}[xr.Intn(2)]
+			rq.Ops = genFaultOps(xr, h.clients[ci], ci, mw)
+		} else {
+			rq.Ops = h.genOps(r, ci, mw, id, r.Range(0, 5))
+		}
 		e.Stat("class|"+class, 1)
 		if !h.do(rq) {
 			break
@@ -800,6 +810,9 @@ func (h *hist) finish() {
 	e := h.e
 	e.Stat("histories", 1)
 	e.StatMax("max-requests-in-history", int64(len(h.trace)))
+	if h.faulted {
+		e.Stat("histories-continued-after-storage-read-fault", 1)
+	}
 	if h.nontriv {
 		e.Nontrivial(h.trace...)
 		e.Stat("histories-nontrivial", 1)
